@@ -102,6 +102,8 @@ func analyseCompaction(p *Program) *compactAnalysis {
 			"(*Reader).Name": true},
 		Opaque:       map[string]bool{"(*Merged).SeekRef": true, "(*Merged).SeekLog": true, "NewWriter": true},
 		NormSubslice: true,
+		UniqueMake:   true,
+		PreciseExits: true,
 		OnStoreHook: func(c *simClient, x *Exec, st *State, fr *Frame, pos token.Pos, addr, val, old *Term) {
 			if addr.Op == "field" && addr.Aux == "Merged.suppressDeletions" && val != tFalse {
 				a.rawViol = append(a.rawViol, p.pos(pos))
@@ -146,7 +148,22 @@ func (a *compactAnalysis) rangeBounds(r *Report, p *Program) {
 			if ev.Op != "ev" || ev.Aux != "NewMerged" {
 				continue
 			}
-			for _, m := range listMembers(ev.Args[0]) {
+			members := listMembers(ev.Args[0])
+			if ms := ev.Args[0]; ms.Op == "madeslice" {
+				// a slice made to size and filled by index: its members are what was stored
+				members = nil
+				var ks []string
+				for k, cl := range s.St.mem {
+					if cl.addr != nil && cl.addr.Op == "index" && cl.addr.Args[0] == ms && cl.val != nil {
+						ks = append(ks, k)
+					}
+				}
+				sort.Strings(ks)
+				for _, k := range ks {
+					members = append(members, s.St.mem[k].val)
+				}
+			}
+			for _, m := range members {
 				if os.Getenv("RSA_DEBUG") == "13" {
 					fmt.Fprintf(os.Stderr, "NewMerged member %s\n", m.key)
 				}
@@ -249,6 +266,10 @@ func checkCompactionTables(p *Program, r *Report, wantExpiry, wantTomb bool) {
 		}
 		iter := s.Events[i:]
 		next := iter[0]
+		// an iteration in which the iterator reported exhaustion read no record
+		if len(iter) > 1 && iter[1].Op == "evret" && iter[1].Args[0].Op == "tuple" && s.St.truth(iter[1].Args[0].Args[0]) == 0 {
+			continue
+		}
 		rec := next.Args[1]
 		nextSite := next.Args[len(next.Args)-1]
 		// the record as Next left it: content unknown, epoch = that call
